@@ -336,8 +336,18 @@ const miniCSVSkip = `{
 }`
 const miniCSVSkipInput = "junk line 1\njunk, \"line\" 2\nid|name\nnote a\nnote b\n1|alpha\n2|\"beta\n3|gamma\n"
 
+func genCSVRDQ(rows int) string {
+	var sb []byte
+	sb = append(sb, "junk 1\njunk \"2\"\nid|name\nnote a\nnote b\n"...)
+	for i := 0; i < rows; i++ {
+		sb = append(sb, fmt.Sprintf("%d|na\"me %d\n", i, i*7)...)
+	}
+	return string(sb)
+}
+
 func generatedSamples() []Sample {
 	return []Sample{
+		{"gen/csv-replace-double-quotes-long", "csv", []byte(miniCSVSkip), []byte(genCSVRDQ(60))},
 		{"gen/csv-skip-rows", "csv", []byte(miniCSVSkip), []byte(miniCSVSkipInput)},
 		{"gen/fixedlength2-rows", "fixedlength2", []byte(genFixed2Rows), []byte(genLines([]string{"H", "D", "F"}, 9, 600))},
 		{"gen/fixedlength2-headerfooter", "fixedlength2", []byte(genFixed2HF), []byte(genLines([]string{"H", "D", "F"}, 9, 600))},
